@@ -345,8 +345,9 @@ class BaseEngine(abc.ABC):
             if program.space_unrolled_circuit is None:
                 program.space_unroll(shots=shots or 1)
         else:
-            # if `space_unroll != True`, only unroll it iff it isn't already unrolled
-            if not program.is_unrolled:
+            # if `space_unroll != True`, unroll it unless it is space-unrolled; a program that is
+            # already unrolled is only unrolled again if the number of shots differs
+            if program.space_unrolled_circuit is None:
                 program.unroll(shots=shots or 1)
 
         if program.space_unrolled_circuit is not None:
